@@ -473,6 +473,31 @@ func (e *specEnv) callExpr(c *ast.CallExpr) Val {
 			case "held":
 				p := e.addrOf(c.Args[0])
 				return scalar(Select(e.cur.arr("X:held", SBool), mutexID(p)), types.Typ[types.Bool])
+			case "visited":
+				// visited(m, k): key k was already produced by the current range over map m
+				mv := e.expr(c.Args[0])
+				mt, ok := e.typeOf(c.Args[0]).Underlying().(*types.Map)
+				if !ok {
+					e.fail(c, "visited(map, key)")
+				}
+				ks, sok := mapKeySort(mt)
+				if !sok {
+					e.fail(c, "visited: map with composite key")
+				}
+				a := e.x.mapArr(e.cur, "X:visited:"+typeName(mt), ks, SBool)
+				return scalar(Select(Select(a, mv.T), keyTerm(e.expr(c.Args[1]))), types.Typ[types.Bool])
+			case "has":
+				// has(m, k): key k is present in map m
+				mv := e.expr(c.Args[0])
+				mt, ok := e.typeOf(c.Args[0]).Underlying().(*types.Map)
+				if !ok {
+					e.fail(c, "has(map, key)")
+				}
+				if _, sok := mapKeySort(mt); !sok {
+					e.fail(c, "has: map with composite key")
+				}
+				_, dom := e.x.mapGet(e.cur, mt, mv.T, keyTerm(e.expr(c.Args[1])))
+				return scalar(dom, types.Typ[types.Bool])
 			case "sends":
 				ch := e.expr(c.Args[0])
 				return scalar(Select(e.cur.arr("X:sends", BV(64)), ch.T), types.Typ[types.Int])
